@@ -57,3 +57,60 @@ Example C07_corners :
   lex_lt (enc_s 8 (-1)) (enc_s 8 0) /\
   dec_s 1 (enc_s 1 (-128)) = (-128)%Z.
 Proof. vm_compute. repeat split; reflexivity. Qed.
+
+(* ---- the declared float order is IEEE-754 comparison, as defined independently by Flocq ----
+   Proofs/FlocqLink.v.  For bit patterns that are not NaN, fl_lt is IEEE "less than" on the decoded
+   values, refined only by -0 < +0; the NaN patterns are exactly the ones Flocq decodes to a NaN.
+   The first four statements are on Flocq's decoder binary_float_of_bits_aux and the standard
+   library's SFcompare and are closed under the global context.  The b32/b64 forms mention
+   b32_of_bits / b64_of_bits, which pack Flocq's validity proof (done over the reals), and therefore
+   depend on four axioms DECLARED BY THE STANDARD LIBRARY (printed below and named in DESIGN.md §8):
+   ClassicalDedekindReals.sig_not_dec, ClassicalDedekindReals.sig_forall_dec,
+   FunctionalExtensionality.functional_extensionality_dep, Classical_Prop.classic. *)
+From Flocq Require Import IEEE754.Binary IEEE754.Bits.
+From Coq Require Import Floats.SpecFloat.
+From GoArt Require Import Proofs.FlocqLink.
+
+Theorem C07_float_order_is_ieee_sf_32 : forall a b : N,
+  (a < 2 ^ 32)%N -> (b < 2 ^ 32)%N -> Keys.is_nan 4 a = false -> Keys.is_nan 4 b = false ->
+  (fl_lt 4 a b <->
+   SFcompare (FF2SF (binary_float_of_bits_aux 23 8 (Z.of_N a)))
+             (FF2SF (binary_float_of_bits_aux 23 8 (Z.of_N b))) = Some Lt \/
+   (a = 0x80000000 /\ b = 0)%N).
+Proof. exact fl_lt_is_sf_lt_32. Qed.
+Print Assumptions C07_float_order_is_ieee_sf_32.
+
+Theorem C07_float_order_is_ieee_sf_64 : forall a b : N,
+  (a < 2 ^ 64)%N -> (b < 2 ^ 64)%N -> Keys.is_nan 8 a = false -> Keys.is_nan 8 b = false ->
+  (fl_lt 8 a b <->
+   SFcompare (FF2SF (binary_float_of_bits_aux 52 11 (Z.of_N a)))
+             (FF2SF (binary_float_of_bits_aux 52 11 (Z.of_N b))) = Some Lt \/
+   (a = 0x8000000000000000 /\ b = 0)%N).
+Proof. exact fl_lt_is_sf_lt_64. Qed.
+Print Assumptions C07_float_order_is_ieee_sf_64.
+
+Theorem C07_nan_is_ieee_nan_ff_32 : forall a : N,
+  Keys.is_nan 4 a = is_nan_FF (binary_float_of_bits_aux 23 8 (Z.of_N a)).
+Proof. exact is_nan_is_ff_nan_32. Qed.
+Print Assumptions C07_nan_is_ieee_nan_ff_32.
+
+Theorem C07_nan_is_ieee_nan_ff_64 : forall a : N,
+  Keys.is_nan 8 a = is_nan_FF (binary_float_of_bits_aux 52 11 (Z.of_N a)).
+Proof. exact is_nan_is_ff_nan_64. Qed.
+Print Assumptions C07_nan_is_ieee_nan_ff_64.
+
+Theorem C07_float_order_is_ieee_b32 : forall a b : N,
+  (a < 2 ^ 32)%N -> (b < 2 ^ 32)%N -> Keys.is_nan 4 a = false -> Keys.is_nan 4 b = false ->
+  (fl_lt 4 a b <->
+   b32_compare (b32_of_bits (Z.of_N a)) (b32_of_bits (Z.of_N b)) = Some Lt \/
+   (a = 0x80000000 /\ b = 0)%N).
+Proof. exact fl_lt_is_ieee_lt_32. Qed.
+Print Assumptions C07_float_order_is_ieee_b32.
+
+Theorem C07_float_order_is_ieee_b64 : forall a b : N,
+  (a < 2 ^ 64)%N -> (b < 2 ^ 64)%N -> Keys.is_nan 8 a = false -> Keys.is_nan 8 b = false ->
+  (fl_lt 8 a b <->
+   b64_compare (b64_of_bits (Z.of_N a)) (b64_of_bits (Z.of_N b)) = Some Lt \/
+   (a = 0x8000000000000000 /\ b = 0)%N).
+Proof. exact fl_lt_is_ieee_lt_64. Qed.
+Print Assumptions C07_float_order_is_ieee_b64.
